@@ -642,12 +642,56 @@ func stableStorm(r rng, res *result, idx int64, name string, load func(int) (any
 			}
 		}(g)
 	}
+	// a volatile key, overwritten in place as fast as possible by one goroutine and read
+	// by two: every value read must be one that was stored under it, whole (checksum)
+	const volatileKey = 950
+	var torn, vreads int64
+	var firstTorn atomic.Value
+	cwg.Add(1)
+	go func() {
+		defer cwg.Done()
+		<-start
+		for n := 0; atomic.LoadInt32(&stop) == 0; n++ {
+			store(volatileKey, nextVal(volatileKey))
+			if n&1023 == 0 {
+				vshim.Progress()
+			}
+		}
+	}()
+	for g := 0; g < 2; g++ {
+		cwg.Add(1)
+		go func() {
+			defer cwg.Done()
+			<-start
+			for n := 0; atomic.LoadInt32(&stop) == 0; n++ {
+				v, ok := load(volatileKey)
+				atomic.AddInt64(&vreads, 1)
+				if ok {
+					x, isVal := v.(val)
+					if !isVal || !x.ok() || int(x.K) != volatileKey {
+						if atomic.AddInt64(&torn, 1) == 1 {
+							firstTorn.Store(fmt.Sprintf("Load(k%d) = (%s,true)", volatileKey, fmtVal(v)))
+						}
+					}
+				}
+				if n&1023 == 0 {
+					vshim.Progress()
+				}
+			}
+		}()
+	}
 	close(start)
 	wg.Wait()
 	atomic.StoreInt32(&stop, 1)
 	cwg.Wait()
 	vshim.SetMode(0)
 	runtime.GOMAXPROCS(old)
+	res.count("volatile_key_reads", atomic.LoadInt64(&vreads))
+	if n := atomic.LoadInt64(&torn); n > 0 {
+		msg, _ := firstTorn.Load().(string)
+		res.violate(violation{Class: "stable-read", Sig: "a key overwritten in place is read with a value nobody stored (mixed from two writes, or stored under another key)",
+			Msg: fmt.Sprintf("%s: %d of %d lookups; first: %s", name, n, atomic.LoadInt64(&vreads), msg), Case: map[string]any{"case_index": idx, "desc": name}})
+	}
 	res.Evaluations++
 	res.count("family:stable-storm", 1)
 	res.count("stable_reads", int64(readers*perReader))
